@@ -385,8 +385,9 @@ instances! {
     c11_k3_rec_child_other_ext => rec_case::<TX>(&[4, 1], &[1], true);
 }
 /// an unreadable sub-directory is skipped without hiding the siblings that come after it.
-/// Unwinding bound 5 (not 8): the skipped child's `Error` is dropped inside the closure and its drop glue is recursive
-/// through `dyn Error` (with 8 CBMC did not finish in 50 min).
+/// NOT registered in obligations.toml: with unwinding bound 8 CBMC did not finish in 50 min, with 5 it ran out of memory
+/// (56 GB), the minimal shape with bound 4 did not finish in 50 min either: the skipped child's `Error` is dropped inside
+/// the closure and its drop glue is recursive through `dyn Error`. Seed C11-02 is therefore not detected.
 fn rec_unreadable_then_readable() {
     let c = dc(&[4, 5, 0], &[0], false); // d.s (unreadable), d.t (readable: d.t.r), file d.p
     match c._load::<RecursiveDirectory<TX>>("d") {
